@@ -77,7 +77,7 @@ def P17 (m : List (Nat × Status)) (faultFree : Bool) (mt : Dep → Bool) (ds ou
   (faultFree = true → out = eligible m mt ds) ∧
   (∀ d ∈ out, lookup m d.key = .pending → lookup m' d.key = .failed) ∧
   (∀ d ∈ ds, lookup m' d.key = lookup m d.key ∨
-      (mt d = true ∧ lookup m d.key = .pending ∧ lookup m' d.key = .failed))
+      (lookup m d.key = .pending ∧ lookup m' d.key = .failed ∧ ∃ d' ∈ ds, mt d' = true ∧ d'.key = d.key))
 
 instance (m : List (Nat × Status)) (ff : Bool) (mt : Dep → Bool) (ds out : List Dep) (m' : List (Nat × Status)) :
     Decidable (P17 m ff mt ds out m') := by
